@@ -3,6 +3,7 @@ package checks
 import (
 	"bytes"
 	"fmt"
+	"os"
 	"strings"
 	"time"
 
@@ -250,9 +251,9 @@ func c02CLI(c *mc.Ctx) {
 		rows2 = append([][]string{}, rows2...)
 		rows2[0] = []string{rows2[0][0], rows2[0][1] + "!"}
 	}
-	// make sure the file is newer than the cached temp commit
-	time.Sleep(1100 * time.Millisecond)
 	repo.writeFile("data.csv", csvBytes(cols, rows2, ','))
+	// the file is newer than anything committed so far (modification time set, not waited for)
+	os.Chtimes(fp, time.Now().Add(10*time.Second), time.Now().Add(10*time.Second))
 	args := []string{"commit", "main", "second", "-n", workers}
 	if memLimit != "" {
 		args = append(args, "--mem-limit", memLimit)
